@@ -116,13 +116,14 @@ PROPS['C10'] = {
 PROPS['C07'] = {
     'level': 'proof', 'claimed': True,
     'claim': 'unbounded proof, with symbolic thresholds (so values equal to the threshold are cases of the proof), that RemoveEdges applies its skip rules and performs the documented pointer surgery per contracted branch, and that the list of branches handed to RemoveEdges by CollapseShortBranches / CollapseLowSupport / CollapseTopoDepth is exactly the set of branches satisfying the documented criterion (length <= l; support present and < s; min <= topological depth <= max): every listed branch satisfies it and every branch satisfying it is listed; collapse by support never asks for tip removal',
-    'level_note': 'relative to the assumed contract of Edges (elements are live branches in fresh storage), the thin assumed contract of ReinitInternalIndexes, io.ExitWithMessage never returning, and the representation invariants INV1, INV2, OWN, LIVEBR as preconditions (DESIGN 11.3). RemoveEdges: never contracts a tip branch (zeroes its length on request only), contracts a branch next to a degree-2 end on request only, re-points and re-attaches every other neighbour of the lower end under the upper end, empties the lower end, and its frame excludes supports, names, comments and the lengths of inner branches',
+    'level_note': 'relative to the assumed contract of Edges (elements are live branches in fresh storage), the thin assumed contract of ReinitInternalIndexes, io.ExitWithMessage never returning, and the representation invariants INV1, INV2, OWN, LIVEBR as preconditions (DESIGN 11.3). RemoveEdges: never contracts a tip branch (zeroes its length on request only), contracts a branch next to a degree-2 end on request only, re-points and re-attaches every other neighbour of the lower end under the upper end, empties the lower end, and its frame excludes supports, names, comments and the lengths of inner branches. resolveRecur: leaves at most three neighbours at the node it returns from, re-attaches each detached neighbour under the new node with the length/support/p-value of the branch it hung on, and gives the joining branch length 0 and no support/p-value',
     'packages': ['./tree', './hashmap'],
     'functions': ['(*tree.Tree).CollapseLowSupport', '(*tree.Tree).CollapseShortBranches', '(*tree.Tree).CollapseTopoDepth',
-                  '(*tree.Tree).RemoveEdges', '(*tree.Tree).unconnectNode', '(*tree.Node).delNeighbor', '(*tree.Node).NodeIndex'],
+                  '(*tree.Tree).RemoveEdges', '(*tree.Tree).unconnectNode', '(*tree.Node).delNeighbor', '(*tree.Node).NodeIndex',
+                  ('(*tree.Tree).resolveRecur', {'match': [r'^post', r'^callsite']})],
     'trusted_base': TB_COMMON,
     'assumptions': A_COMMON,
-    'not_decided': ['that the contraction removes exactly one split and keeps the others (L3 of lemmas/GRAPH.md)', 'Resolve / resolveRecur', 'absent lengths (-1) are <= any non-negative threshold: the criterion is applied to the stored value as the code documents'],
+    'not_decided': ['that the contraction removes exactly one split and keeps the others (L3 of lemmas/GRAPH.md)', 'resolveRecur: run-time safety of the pairing loop (index into the shuffled list, success of the detachments) needs the permutation property of rand.Perm and symmetric adjacency: not proved; that every original split and distance survives (L4/L5)', 'absent lengths (-1) are <= any non-negative threshold: the criterion is applied to the stored value as the code documents'],
 }
 
 PROPS['C14'] = {
